@@ -118,6 +118,21 @@ def check_independence(fam, arg):
     if snapshot(first) != want:
         fail(who + "writing into the metadata arrays of one instance changed an instance built before it: %r -> %r" %
              (want, snapshot(first)))
+    # the first instance is now USED: a short refining solve and preimage queries on its optimum record - using a
+    # problem must not change what it declares
+    if fam != "stronginC3":
+        import contextlib
+        import io
+        from iOpt.solver import Solver
+        from iOpt.solver_parametrs import SolverParameters
+        with contextlib.redirect_stdout(io.StringIO()):
+            sv = Solver(first, SolverParameters(r=3.0, eps=0.01, itersLimit=8, refineSolution=True))
+            sv.Solve()
+            sv.evolvent.GetPreimages(first.knownOptimum[0].point.floatVariables)
+            sv.evolvent.GetInverseImage(first.knownOptimum[0].point.floatVariables)
+        if snapshot(first) != want:
+            fail(who + "after the instance was handed to a Solver (8 trials, refineSolution=True) and its optimum record "
+                 "to the solver's evolvent, it declares %r instead of %r" % (snapshot(first), want))
     later = bench.construct(fam, arg)
     if snapshot(later) != want:
         fail(who + "after the metadata arrays of one instance were written to, a newly built instance declares "
